@@ -394,6 +394,15 @@ PROPS["C20"] = {
     "assumptions": KANI_ASSUME,
 }
 
+def _run_c09(prop, spec, tier):
+    import importlib, sys as _sys
+    _sys.path.insert(0, os.path.join(os.path.dirname(os.path.dirname(os.path.abspath(__file__))), "smt"))
+    import c09
+    return c09.main(prop, tier)
+
+
+PROPS["C09"] = {"engine": "smt", "level": "other", "run": _run_c09}
+
 # <<SPECS-END>>
 
 from props_text import MANIFEST_TEXT, NOT_YET  # noqa: E402
